@@ -110,19 +110,28 @@ impl Sampler for Multinomial {
 /// Sample an item from a vector of probabilities.
 ///
 /// Returns the index of the selected item, or `None` if the vector is empty
-/// or sums to less than 1.
+/// or contains NaNs.
 fn multinomial(rng: &mut fastrand::Rng, probs: &[f32]) -> Option<usize> {
     let target = rng.f32();
 
     let mut cum_prob = 0.;
+    let mut last_nonzero = None;
     for (idx, &prob) in probs.iter().enumerate() {
         cum_prob += prob;
-        if target <= cum_prob {
-            return Some(idx);
+        // Items with zero probability are never selected, even if `target`
+        // is zero.
+        if prob > 0. {
+            if target <= cum_prob {
+                return Some(idx);
+            }
+            last_nonzero = Some(idx);
         }
     }
 
-    None
+    // Due to rounding the probabilities may sum to slightly less than one and
+    // `target` can exceed the sum. In that case the target falls in the last
+    // item that has a non-zero probability.
+    if cum_prob.is_nan() { None } else { last_nonzero }
 }
 
 #[cfg(test)]
